@@ -60,10 +60,39 @@ def register_secure(reg):
                  raises={"C03.no-key-file-is-named-or-renamed": NAMES})
 
 
+def register_challenge_codec(reg):
+    """ChallengeField on disk (C09): salt and digest only, base64; a map loads back to the same pair, plain text is hashed"""
+    PURE = "heap_unchanged() and fs_same()"
+    reg.contract("fields.secure_field:ChallengeField.to_basic", params={"cfg": "ref:Config", "value": "opt:ref:DigestValue"}, returns="opt:ref:dict", base="core:Field.to_basic",
+                 modifies=["fresh"], noraise=True,
+                 requires={"well-formed": "implies(value is not None, len(value) == 3 and typeis(value.salt, 'bytes') and typeis(value.digest, 'bytes'))"},
+                 ensures={
+                     "C09.unset-is-null": "implies(value is None, result is None)",
+                     "C09.only-salt-and-digest-are-written": "implies(value is not None, typeis(result, 'ref:dict') and fresh(result) and len(result) == 2 and has(result, 'salt') and has(result, 'digest')"
+                                                            " and get(result, 'salt') == utf8_text(b64(value.salt)) and get(result, 'digest') == utf8_text(b64(value.digest)))",
+                     "C13.nothing-else-changes": PURE,
+                 })
+    reg.contract("fields.secure_field:ChallengeField.to_python", params={"cfg": "ref:Config", "value": "any"}, returns="opt:ref:DigestValue", base="core:Field.to_python",
+                 modifies=["rand_ctr", "fresh"],
+                 ensures={
+                     "C09.null-stays-null": "implies(value is None, result is None)",
+                     "C09.a-stored-pair-is-decoded-not-hashed": "implies(typeis(value, 'ref:dict'), len(result) == 3 and result.algorithm is self.algorithm and typeis(result.salt, 'bytes') and typeis(result.digest, 'bytes')"
+                                                                " and glob('rand_ctr') == old(glob('rand_ctr')) and result.salt == unb64(get(value, 'salt')) and result.digest == unb64(get(value, 'digest')))",
+                     "C09.plain-text-in-a-document-is-hashed-with-a-new-salt": "implies(typeis(value, 'str'), result.algorithm is self.algorithm and result.salt == rand_bytes(old(glob('rand_ctr')))"
+                                                                               " and result.digest == hash_of(self.algorithm, result.salt + as_bytes(value)))",
+                     "C13.nothing-else-changes": PURE,
+                 },
+                 raises={"C09.only-a-malformed-value-is-refused": "exc_is(ValueError, TypeError) and not typeis(value, 'str') and value is not None", "C13.nothing-else-changes": PURE})
+    L = reg.contract
+    L("lemma:c09_stored_pair_loads_back", params={"f": "ref:ChallengeField", "cfg": "ref:Config", "d": "ref:DigestValue"}, props=("C09", "C02"),
+      requires={"well-formed": "len(d) == 3 and typeis(d.salt, 'bytes') and typeis(d.digest, 'bytes')"})
+
+
 _reg_digest = register
 
 
 def register(reg):
     _reg_digest(reg)
     register_secure(reg)
+    register_challenge_codec(reg)
 
